@@ -81,3 +81,9 @@ Check (C12_session_equiv_query :
     | OBudget => True
     | OBound | OData _ => False
     end).
+
+Check (C12_spine_nounlock_refuted :
+  exists h k e,
+    count_locked (sheap (fst (sess_run_nounlock empty_session h))) <> 0 /\
+    snd (sess_step_nounlock (fst (sess_run_nounlock empty_session h)) (ISpine k e))
+    <> snd (sess_step_nounlock empty_session (ISpine k (chain (defs_of h) e)))).
